@@ -86,6 +86,8 @@ pub enum Leaf {
     Req { tag: u32, src: Src, #[serde(default, skip_serializing_if = "is_false")] l: bool },
     Next { s: u32 },
     Joinh { h: u32 },
+    /// next message of the task-to-task channel in slot c (0 when it is closed and empty)
+    Recv { c: u32 },
 }
 
 fn is_false(b: &bool) -> bool {
@@ -110,6 +112,13 @@ pub enum Instr {
     Join { leaves: Vec<Leaf>, dst: Vec<u32> },
     Select { leaves: Vec<Leaf>, dst: u32, idx: u32 },
     Yield,
+    /// create an unbounded futures mpsc channel in slot c; tasks spawned afterwards share the receiver and
+    /// get a clone of the sender
+    Chan { c: u32 },
+    Send { c: u32, src: Src },
+    /// drop this task's sender of the channel in slot c
+    Closec { c: u32 },
+    Recv { c: u32, dst: u32, #[serde(rename = "else")] els: u32 },
 }
 
 pub fn apply_f(f: &str, v: u32) -> u32 {
@@ -302,6 +311,13 @@ pub struct TaskEnv {
     handles: Vec<Option<JH>>,
     /// the capability context of the app's legacy capability, when hosted by a Core (mixed APIs)
     lctx: Option<crux_core::capability::CapabilityContext<VOp, Event>>,
+    chans: Vec<Option<ChanH>>,
+}
+
+#[derive(Clone)]
+struct ChanH {
+    tx: Option<futures::channel::mpsc::UnboundedSender<u32>>,
+    rx: Arc<Mutex<futures::channel::mpsc::UnboundedReceiver<u32>>>,
 }
 
 impl TaskEnv {
@@ -314,6 +330,7 @@ impl TaskEnv {
             streams: vec![None, None, None],
             handles: vec![None; 4],
             lctx: crate::app::legacy_ctx(),
+            chans: vec![None, None, None],
         }
     }
     fn stamp(&mut self) -> [u32; 3] {
@@ -390,6 +407,13 @@ fn leaf_future(
             let jh = env.handles[*h as usize].clone().expect("no handle");
             (jh.fut)().map(|()| 0).boxed()
         }
+        Leaf::Recv { c } => {
+            let rx = env.chans[*c as usize].as_ref().expect("no channel").rx.clone();
+            futures::future::poll_fn(move |cx| {
+                rx.lock().unwrap().poll_next_unpin(cx).map(|o| o.unwrap_or(0))
+            })
+            .boxed()
+        }
     }
 }
 
@@ -402,7 +426,10 @@ pub fn run_script(
     async move {
         let _token = token;
         let mut pc: usize = 0;
+        let mut fuel: u32 = 1_000_000;
         while pc < code.len() {
+            // (a program that spins without ever suspending is a mistake of the generator, not of crux)
+            fuel = fuel.checked_sub(1).expect("script does not terminate");
             match &code[pc] {
                 Instr::Emit { tag, src } => {
                     let val = env.src(src);
@@ -514,6 +541,41 @@ pub fn run_script(
                 Instr::Yield => {
                     YieldOnce(false).await;
                     pc += 1;
+                }
+                Instr::Chan { c } => {
+                    let (tx, rx) = futures::channel::mpsc::unbounded();
+                    env.chans[*c as usize] = Some(ChanH { tx: Some(tx), rx: Arc::new(Mutex::new(rx)) });
+                    pc += 1;
+                }
+                Instr::Send { c, src } => {
+                    // (0 stands for "closed" on the receiving side of the DSL: messages are >= 1)
+                    let val = env.src(src).max(1);
+                    if let Some(tx) = env.chans[*c as usize].as_ref().and_then(|h| h.tx.as_ref()) {
+                        let _ = tx.unbounded_send(val);
+                    }
+                    pc += 1;
+                }
+                Instr::Closec { c } => {
+                    if let Some(h) = env.chans[*c as usize].as_mut() {
+                        h.tx = None;
+                    }
+                    pc += 1;
+                }
+                Instr::Recv { c, dst, els } => {
+                    let rx = env.chans[*c as usize].as_ref().expect("no channel").rx.clone();
+                    let item =
+                        futures::future::poll_fn(move |cx| rx.lock().unwrap().poll_next_unpin(cx))
+                            .await;
+                    match item {
+                        Some(v) => {
+                            env.regs[*dst as usize] = v;
+                            pc += 1;
+                        }
+                        None => {
+                            env.regs[*dst as usize] = 0;
+                            pc = (*els as usize) - 1;
+                        }
+                    }
                 }
             }
         }
